@@ -14,7 +14,7 @@ import lib
 from lib import g_str, g_nat, g_list, g_grammar
 from isla.language import (parse_isla, unparse_isla, SMTFormula, StructuralPredicateFormula, NegatedFormula,
                            ConjunctiveFormula, DisjunctiveFormula, ForallFormula, ExistsFormula, Constant,
-                           DummyVariable, BoundVariable)
+                           DummyVariable, BoundVariable, SemanticPredicateFormula, ForallIntFormula, ExistsIntFormula)
 from isla.isla_predicates import STANDARD_STRUCTURAL_PREDICATES as SP, STANDARD_SEMANTIC_PREDICATES as MP
 from isla.evaluator import evaluate
 from isla.derivation_tree import DerivationTree
@@ -28,7 +28,51 @@ GRAMMARS = [
     {"<start>": ["<s>"], "<s>": ["<t><u>", "<u>"], "<t>": ["<a><a>", "<a>"], "<u>": ["<b>", "<t>y"],
      "<a>": ["x", "z"], "<b>": ["y", "w"]},
     {"<start>": ["<s>"], "<s>": ["<a>;<s>", "<c>"], "<a>": ["x", "y", "<c>z"], "<c>": ["w", ""], },
+    {"<start>": ["<t>"], "<t>": ["<row>", "<row>;<t>"], "<row>": ["<d>", "<d>-<d>", "<d><row>"], "<d>": ["0", "1", "2"]},
 ]
+NEEDLES = sorted({k for g in GRAMMARS for k in g})
+# atoms that only occur in positive polarity (infix chains, atoms over numeric variables): payload 1000+i, identified
+# by the canonical form of the z3 term that z3 itself builds from the HAND-EXPANDED core S-expression
+CHAINS, CHAIN_ID = [], {}
+
+
+def canon_z3(e, names):
+    if z3.is_const(e) and e.decl().kind() == z3.Z3_OP_UNINTERPRETED:
+        names.append(str(e))
+        return "$"
+    if not e.children():
+        return e.sexpr()
+    return "(" + e.decl().name() + " " + " ".join(canon_z3(c, names) for c in e.children()) + ")"
+
+
+def register_chain(sugar_tmpl, core_tmpl, nslots):
+    """templates use @i@ for the i-th term slot; returns payload id or None"""
+    txt = core_tmpl
+    for i in range(nslots):
+        txt = txt.replace(f"@{i}@", f"s{i}")
+    try:
+        e = z3.parse_smt2_string(f"(assert {txt})", decls={f"s{i}": z3.String(f"s{i}") for i in range(nslots)})[0]
+    except z3.Z3Exception:
+        return None
+    names = []
+    c = canon_z3(e, names)
+    if names != [f"s{i}" for i in range(nslots)]:
+        return None
+    if c not in CHAIN_ID:
+        CHAIN_ID[c] = len(CHAINS)
+        CHAINS.append({"sugar": sugar_tmpl, "core": core_tmpl, "canon": c, "nslots": nslots})
+    idx = CHAIN_ID[c]
+    if CHAINS[idx]["core"] != core_tmpl:
+        return None     # same z3 term from a different text: keep one text per payload
+    # several sugar texts for one core are fine: the text travels with the atom (f[4])
+    return 1000 + idx
+
+
+def fill(tmpl, ts):
+    for i, t in enumerate(ts):
+        tmpl = tmpl.replace(f"@{i}@", t)
+    return tmpl
+
 LITS = ["x", "y", "z", "w", "xy", "yy", "xz"]
 PREDS = ["inside", "before", "same_position"]
 
@@ -92,22 +136,142 @@ class Gen:
         self.xp_of_root = {}
         self.cnt = 0
         self.bad_scope = rng.random() < 0.04
+        self.has_d = "<d>" in g
+
+    # ---------------- infix chains (positive polarity only)
+    def int_operand(self, slots, depth=0):
+        rng = self.rng
+        r = rng.random()
+        if r < 0.35:
+            i = len(slots); slots.append(None)
+            return rng.choice([f"str.to.int(@{i}@)", f"(str.to.int @{i}@)"]), f"(str.to.int @{i}@)"
+        if r < 0.6:
+            i = len(slots); slots.append(None)
+            return rng.choice([f"str.len(@{i}@)", f"(str.len @{i}@)"]), f"(str.len @{i}@)"
+        if r < 0.9 or depth > 0:
+            k = rng.choice([1, 2, 3, 1, 2, 0, -1])
+            return str(k), str(k)
+        op = rng.choice(["+", "-", "*"])
+        a, b = self.int_operand(slots, 1), self.int_operand(slots, 1)
+        return f"({op} {a[1]} {b[1]})", f"({op} {a[1]} {b[1]})"     # S-expression operand inside an infix chain
+
+    def chain_atom(self, scope):
+        rng = self.rng
+        slots = []
+        n = rng.randint(3, 5)
+        if rng.random() < 0.2:
+            # string chain with str.++
+            opnds = []
+            for _ in range(n):
+                if rng.random() < 0.6 or not slots:
+                    i = len(slots); slots.append(None)
+                    opnds.append(f"@{i}@")
+                else:
+                    opnds.append('"' + rng.choice(["x", "y", "-", "1"]) + '"')
+            sugar = " str.++ ".join(opnds)
+            core = opnds[0]
+            for o in opnds[1:]:
+                core = f"(str.++ {core} {o})"
+            lit = '"' + rng.choice(["xy", "1-2", "x", "11"]) + '"'
+            sugar, core = f"{sugar} = {lit}", f"(= {core} {lit})"
+        else:
+            opnds = [self.int_operand(slots) for _ in range(n)]
+            mode = rng.random()
+            if mode < 0.45:
+                ops = [rng.choice(["+", "-"]) for _ in range(n - 1)]
+            elif mode < 0.8:
+                ops = [rng.choice(["*", "div", "mod"]) for _ in range(n - 1)]
+            else:
+                ops = [rng.choice(["+", "-", "*", "div"]) for _ in range(n - 1)]
+            sugar = opnds[0][0]
+            for o, x in zip(ops, opnds[1:]):
+                sugar += f" {o} {x[0]}"
+            # documented core: * div mod bind tighter than + -, both levels nest to the left
+            prods, cur = [], opnds[0][1]
+            addops = []
+            for o, x in zip(ops, opnds[1:]):
+                if o in ("*", "div", "mod"):
+                    cur = f"({o} {cur} {x[1]})"
+                else:
+                    prods.append(cur); addops.append(o); cur = x[1]
+            prods.append(cur)
+            core = prods[0]
+            for o, x in zip(addops, prods[1:]):
+                core = f"({o} {core} {x})"
+            rel = rng.choice(["=", ">=", "<=", ">", "<"])
+            k = rng.choice([0, 1, 2, 3, 4])
+            sugar, core = f"{sugar} {rel} {k}", f"({rel} {core} {k})"
+        if not slots:
+            return None
+        aid = register_chain(sugar, core, len(slots))
+        if aid is None:
+            return None
+        return ('atom', True, aid, [self.term(scope) for _ in slots], sugar)
+
+    def int_formula(self, scope, pol):
+        """exists int n: count(T, "<needle>", n) [and str.to.int(n) REL k]"""
+        rng = self.rng
+        self.cnt += 1
+        n = f"n{self.cnt}"
+        needle = rng.choice(self.nts)
+        body = ('atom', False, 100 + NEEDLES.index(needle), [self.term(scope), ('var', n)], 0)
+        if pol == 2 and rng.random() < 0.5:
+            rel, k = rng.choice([">=", "<=", "=", ">"]), rng.choice([0, 1, 2])
+            sugar = rng.choice([f"str.to.int(@0@) {rel} {k}", f"({rel} (str.to.int @0@) {k})"])
+            aid = register_chain(sugar, f"({rel} (str.to.int @0@) {k})", 1)
+            if aid is not None:
+                extra = ('atom', True, aid, [('var', n)], sugar)
+                body = ('and', body, extra) if rng.random() < 0.7 else ('and', extra, body)
+        return ('int', False, n, body)
+
+    def mexpr(self, T):
+        """user-written match expression for a quantifier over T: (elements, bound scope entries)"""
+        rng = self.rng
+        alts = [a for a in self.cg.get(T, []) if any(s in self.cg for s in a) and "" not in a]
+        if not alts:
+            return None, []
+        leaves = list(rng.choice(alts))
+        if rng.random() < 0.25:      # second level
+            idx = [i for i, s in enumerate(leaves) if s in self.cg]
+            i = rng.choice(idx)
+            sub = [a for a in self.cg[leaves[i]] if "" not in a]
+            if sub:
+                leaves = leaves[:i] + list(rng.choice(sub)) + leaves[i + 1:]
+        # merge adjacent terminal tokens (the text is re-tokenised by RE_NONTERMINAL)
+        toks = []
+        for l in leaves:
+            if toks and toks[-1] not in self.cg and l not in self.cg:
+                toks[-1] += l
+            else:
+                toks.append(l)
+        me, bound = [], []
+        for t in toks:
+            if t in self.cg and rng.random() < 0.6:
+                self.cnt += 1
+                nm = "m" + t[1:-1] + str(self.cnt)
+                me.append(('b', t, nm))
+                bound.append(('name', nm, t, True))
+            else:
+                me.append(('d', t))
+        return me, bound
 
     def term(self, scope):
         """scope: list of ('name', n, T) | ('anon', T)"""
         rng = self.rng
         r = rng.random()
-        roots = [(s[1], s[2], ('var', s[1])) for s in scope if s[0] == 'name'] + \
-                [(s[1], s[1], ('free', s[1])) for s in scope if s[0] == 'anon']
+        roots = [(s[1], s[2], ('var', s[1]), s[3]) for s in scope if s[0] == 'name'] + \
+                [(s[1], s[1], ('free', s[1]), s[2]) for s in scope if s[0] == 'anon']
         if r < 0.30 or not roots:
-            T = rng.choice(self.nts)
-            roots = roots + [(T, T, ('free', T))]
-            root = roots[-1]
+            # a free nonterminal; prefer the types of variables in scope (name capture is the interesting case)
+            cand = [x[1] for x in roots if not any(s[0] == 'anon' and s[1] == x[1] for s in scope)]
+            T = rng.choice(cand) if cand and rng.random() < 0.5 else rng.choice(self.nts)
+            hit = [x for x in roots if x[0] == T]
+            root = hit[0] if hit else (T, T, ('free', T), False)
         else:
             root = rng.choice(roots)
         if self.bad_scope and rng.random() < 0.3:
             return ('var', 'v' + rng.choice(self.nts)[1:-1] + '9')
-        if rng.random() < 0.55:
+        if rng.random() < 0.55 or root[3]:
             return root[2]
         key = root[0]
         if key in self.xp_of_root:
@@ -132,9 +296,13 @@ class Gen:
         self.xp_of_root[key] = t
         return t
 
-    def atom(self, scope):
+    def atom(self, scope, pol=0):
         rng = self.rng
         r = rng.random()
+        if pol == 2 and r < 0.22:     # never negated: z3.simplify (SMTFormula.__neg__) would rewrite the arithmetic
+            a = self.chain_atom(scope)
+            if a is not None:
+                return a
         if r < 0.5:
             return ('atom', True, 1 + rng.randrange(len(LITS)), [self.term(scope)], rng.randrange(2))
         if r < 0.6:
@@ -148,25 +316,33 @@ class Gen:
             return ('atom', True, 70 + rng.randrange(1, 3), [self.term(scope)], rng.randrange(3))
         return ('atom', False, rng.randrange(len(PREDS)), [self.term(scope), self.term(scope)], 0)
 
-    def formula(self, depth, scope):
+    def formula(self, depth, scope, pol=2):
+        """pol: 2 = positive and below no negation at all, 1 / -1 = polarity, 0 = below iff/xor (both)"""
         rng = self.rng
         r = rng.random()
-        if depth <= 0 or r < 0.25:
-            return self.atom(scope)
-        if r < 0.35:
-            return ('not', self.formula(depth - 1, scope))
+        if depth <= 0 or r < 0.22:
+            return self.atom(scope, pol)
+        if r < 0.29 and pol != 0:     # below iff/xor the hand-expanded core would declare the numeric variable twice
+            return self.int_formula(scope, pol)
+        if r < 0.37:
+            return ('not', self.formula(depth - 1, scope, {2: -1, 1: -1, -1: 1, 0: 0}[pol]))
         if r < 0.70:
             op = rng.choice(['and', 'and', 'or', 'imp', 'iff', 'xor'])
-            return (op, self.formula(depth - 1, scope), self.formula(depth - 1, scope))
+            pl = {'and': pol, 'or': pol, 'imp': {2: -1, 1: -1, -1: 1, 0: 0}[pol]}.get(op, 0)
+            pr = {'and': pol, 'or': pol, 'imp': pol}.get(op, 0)
+            return (op, self.formula(depth - 1, scope, pl), self.formula(depth - 1, scope, pr))
         fa = rng.random() < 0.5
         T = rng.choice(self.nts)
+        me, mbound = (None, [])
+        if rng.random() < 0.35:
+            me, mbound = self.mexpr(T)
         anon_in_scope = any(s[0] == 'anon' and s[1] == T for s in scope)
         if rng.random() < 0.5 and not anon_in_scope:
-            name, sc = None, ('anon', T)
+            name, sc = None, ('anon', T, me is not None)
         else:
             self.cnt += 1
             name = "v" + T[1:-1] + str(self.cnt)
-            sc = ('name', name, T)
+            sc = ('name', name, T, me is not None)
         r2 = rng.random()
         if r2 < 0.6:
             inn = None
@@ -178,12 +354,12 @@ class Gen:
             inn = ('type', rng.choice([x for x in self.nts if x != T] + ["<start>"]))
         else:
             inn = None
-        body = self.formula(depth - 1, scope + [sc])
+        body = self.formula(depth - 1, scope + [sc] + mbound, pol)
         if name is None:
             self.xp_of_root.pop(T, None)   # the anonymous binder ends here
         else:
             self.xp_of_root.pop(name, None)
-        return ('q', fa, T, name, inn, body)
+        return ('q', fa, T, name, inn, body, me)
 
 
 # ------------------------------------------------------------------ printers
@@ -198,7 +374,19 @@ def p_term(t):
     return "..".join(segs)
 
 
+def p_mexpr(me):
+    return '="' + "".join("{%s %s}" % (e[1], e[2]) if e[0] == 'b' else e[1] for e in me) + '"'
+
+
+def p_pred(aid, ts):
+    if aid >= 100:
+        return f'count({ts[0]}, "{NEEDLES[aid - 100]}", {ts[1]})'
+    return f"{PREDS[aid]}({', '.join(ts)})"
+
+
 def p_atom_smt(aid, ts, syn, core):
+    if aid >= 1000:
+        return fill(CHAINS[aid - 1000]["core"] if core else syn, ts)
     a = ts[0]
     if 1 <= aid < 50:
         lit = '"' + LITS[aid - 1] + '"'
@@ -222,12 +410,16 @@ def p_sugar(f):
         ts = [p_term(t) for t in f[3]]
         if f[1]:
             return p_atom_smt(f[2], ts, f[4], False)
-        return f"{PREDS[f[2]]}({', '.join(ts)})"
+        return p_pred(f[2], ts)
     if k == 'not':
         return f"not ({p_sugar(f[1])})"
+    if k == 'int':
+        return f"{'forall' if f[1] else 'exists'} int {f[2]}: ({p_sugar(f[3])})"
     if k == 'q':
-        _, fa, T, name, inn, body = f
+        _, fa, T, name, inn, body, me = f
         s = ("forall " if fa else "exists ") + T + (" " + name if name else "")
+        if me is not None:
+            s += (" " if not name else "") + p_mexpr(me)
         if inn:
             s += " in " + inn[1]
         return f"{s}: ({p_sugar(body)})"
@@ -242,14 +434,16 @@ def p_core(f):
     if k == 'atom':
         if f[1]:
             return p_atom_smt(f[2], f[3], 1, True)
-        return f"{PREDS[f[2]]}({', '.join(f[3])})"
+        return p_pred(f[2], f[3])
     if k == 'not':
         return f"not ({p_core(f[1])})"
+    if k == 'int':
+        return f"{'forall' if f[1] else 'exists'} int {f[2]}: ({p_core(f[3])})"
     if k == 'q':
         _, fa, T, name, inn, me, body = f
         s = ("forall " if fa else "exists ") + T + " " + name
         if me is not None:
-            s += '="' + "".join("{%s %s}" % (e[1], e[2]) if e[0] == 'b' else e[1] for e in me) + '"'
+            s += p_mexpr(me)
         return f"{s} in {inn}: ({p_core(body)})"
     return f"(({p_core(f[1])}) {k} ({p_core(f[2])}))"
 
@@ -287,12 +481,14 @@ class DocElab:
             return ('atom', f[1], f[2], [self.subst_t(t, T, name) for t in f[3]], f[4])
         if k == 'not':
             return ('not', self.subst(f[1], T, name))
+        if k == 'int':
+            return f[:3] + (self.subst(f[3], T, name),)
         if k == 'q':
-            _, fa, T2, nm, inn, body = f
+            _, fa, T2, nm, inn, body, me = f
             inn2 = ('name', name) if inn == ('type', T) else inn
             if nm is None and T2 == T:
-                return ('q', fa, T2, nm, inn2, body)   # shadowed
-            return ('q', fa, T2, nm, inn2, self.subst(body, T, name))
+                return ('q', fa, T2, nm, inn2, body, me)   # shadowed
+            return ('q', fa, T2, nm, inn2, self.subst(body, T, name), me)
         return (k, self.subst(f[1], T, name), self.subst(f[2], T, name))
 
     def name_quantifiers(self, f):
@@ -301,12 +497,14 @@ class DocElab:
             return f
         if k == 'not':
             return ('not', self.name_quantifiers(f[1]))
+        if k == 'int':
+            return f[:3] + (self.name_quantifiers(f[3]),)
         if k == 'q':
-            _, fa, T, nm, inn, body = f
+            _, fa, T, nm, inn, body, me = f
             if nm is None:
                 nm = self.fresh(T)
                 body = self.subst(body, T, nm)
-            return ('q', fa, T, nm, inn, self.name_quantifiers(body))
+            return ('q', fa, T, nm, inn, self.name_quantifiers(body), me)
         return (k, self.name_quantifiers(f[1]), self.name_quantifiers(f[2]))
 
     def free_nts(self, f, acc):
@@ -319,6 +517,8 @@ class DocElab:
                     acc.append(t[1][0][0])
         elif k == 'not':
             self.free_nts(f[1], acc)
+        elif k == 'int':
+            self.free_nts(f[3], acc)
         elif k == 'q':
             if f[4] and f[4][0] == 'type' and f[4][1] != "<start>" and f[4][1] not in acc:
                 acc.append(f[4][1])
@@ -336,6 +536,8 @@ class DocElab:
                     acc.append(t)
         elif k == 'not':
             self.xpaths_rooted(f[1], name, acc)
+        elif k == 'int':
+            self.xpaths_rooted(f[3], name, acc)
         elif k == 'q':
             self.xpaths_rooted(f[5], name, acc)
         else:
@@ -349,8 +551,10 @@ class DocElab:
             return ('atom', f[1], f[2], [new if t == old else t for t in f[3]], f[4])
         if k == 'not':
             return ('not', self.repl_term(f[1], old, new))
+        if k == 'int':
+            return f[:3] + (self.repl_term(f[3], old, new),)
         if k == 'q':
-            return f[:5] + (self.repl_term(f[5], old, new),)
+            return f[:5] + (self.repl_term(f[5], old, new),) + f[6:]
         return (k, self.repl_term(f[1], old, new), self.repl_term(f[2], old, new))
 
     def expansions(self, T, steps):
@@ -388,11 +592,17 @@ class DocElab:
         if k == 'xor':
             a, b = self.core(f[1]), self.core(f[2])
             return ('or', ('and', a, ('not', b)), ('and', ('not', a), b))
-        _, fa, T, nm, inn, body = f
+        if k == 'int':
+            return ('int', f[1], f[2], self.core(f[3]))
+        _, fa, T, nm, inn, body, me = f
         inn_name = 'start' if inn is None or inn == ('type', '<start>') else inn[1]
         xps = self.xpaths_rooted(body, nm, [])
         if len(xps) > 1:
             raise ValueError("two XPath expressions on one variable: documentation is silent")
+        if me is not None:
+            if xps:
+                raise ValueError("XPath on a variable that already has a match expression: documentation is silent")
+            return ('q', fa, T, nm, inn_name, me, self.core(body))
         if not xps:
             return ('q', fa, T, nm, inn_name, None, self.core(body))
         xp = xps[0]
@@ -400,7 +610,7 @@ class DocElab:
         if len(seg0) == 1:
             # v..<t>
             y = self.fresh(rest[0][0][0])
-            body2 = ('q', True, rest[0][0][0], y, ('name', nm), self.repl_term(body, xp, ('var', y)))
+            body2 = ('q', True, rest[0][0][0], y, ('name', nm), self.repl_term(body, xp, ('var', y)), None)
             return ('q', fa, T, nm, inn_name, None, self.core(body2))
         exps = self.expansions(T, seg0[1:])
         if not exps:
@@ -409,7 +619,7 @@ class DocElab:
         x = self.fresh(lastT)
         if rest:
             y = self.fresh(rest[0][0][0])
-            body2 = ('q', True, rest[0][0][0], y, ('name', x), self.repl_term(body, xp, ('var', y)))
+            body2 = ('q', True, rest[0][0][0], y, ('name', x), self.repl_term(body, xp, ('var', y)), None)
         else:
             body2 = self.repl_term(body, xp, ('var', x))
         cbody = self.core(body2)
@@ -427,7 +637,7 @@ class DocElab:
         closed = []
         for T in sorted(self.free_nts(f, [])):
             nm = self.fresh(T)
-            f = ('q', True, T, nm, None, self.subst(f, T, nm))
+            f = ('q', True, T, nm, None, self.subst(f, T, nm), None)
             closed.append(T)
         return self.core(f), closed
 
@@ -441,12 +651,58 @@ def dotdot_targets(f, acc):
                 acc.append(t[2][0][0])
     elif k == 'not':
         dotdot_targets(f[1], acc)
+    elif k == 'int':
+        dotdot_targets(f[3], acc)
     elif k == 'q':
         dotdot_targets(f[5], acc)
     else:
         dotdot_targets(f[1], acc)
         dotdot_targets(f[2], acc)
     return acc
+
+
+def atom_ids(f, acc):
+    k = f[0]
+    if k == 'atom':
+        acc.append(f[2] if f[1] else -1)
+    elif k == 'not':
+        atom_ids(f[1], acc)
+    elif k == 'int':
+        atom_ids(f[3], acc)
+    elif k == 'q':
+        atom_ids(f[5], acc)
+    else:
+        atom_ids(f[1], acc); atom_ids(f[2], acc)
+    return acc
+
+
+def mexpr_capture_case(f):
+    """a match expression binds a variable of type T and a free nonterminal / XPath result of type T occurs too"""
+    bound, invented = set(), set()
+
+    def go(f):
+        k = f[0]
+        if k == 'atom':
+            for t in f[3]:
+                if t[0] == 'free':
+                    invented.add(t[1])
+                if t[0] == 'xp':
+                    invented.add(t[-1][-1][0])
+        elif k == 'not':
+            go(f[1])
+        elif k == 'int':
+            go(f[3])
+        elif k == 'q':
+            for e in f[6] or []:
+                if e[0] == 'b':
+                    bound.add(e[1])
+            if f[3] is None:
+                invented.add(f[2])
+            go(f[5])
+        else:
+            go(f[1]); go(f[2])
+    go(f)
+    return bool(bound & invented)
 
 
 def changes_ast(f):
@@ -456,6 +712,8 @@ def changes_ast(f):
         return any(t[0] != 'var' for t in f[3]) or (f[1] and f[4] != 1)
     if k == 'not':
         return changes_ast(f[1])
+    if k == 'int':
+        return changes_ast(f[3])
     if k == 'q':
         return f[3] is None or f[4] is None or f[4][0] == 'type' or changes_ast(f[5])
     return k in ('imp', 'iff', 'xor') or changes_ast(f[1]) or changes_ast(f[2])
@@ -480,11 +738,15 @@ def g_sform(f):
         return f"(SAtom {'true' if f[1] else 'false'} {f[2]}%N {g_list(f[3], g_term)})"
     if k == 'not':
         return f"(SNot {g_sform(f[1])})"
+    if k == 'int':
+        return f"(SInt {'true' if f[1] else 'false'} {g_str(f[2])} {g_sform(f[3])})"
     if k == 'q':
-        _, fa, T, nm, inn, body = f
+        _, fa, T, nm, inn, body, me = f
         gi = "InDefault" if inn is None else (f"(InName {g_str(inn[1])})" if inn[0] == 'name' else f"(InType {g_str(inn[1])})")
         gn = "None" if nm is None else f"(Some {g_str(nm)})"
-        return f"(SQ {'true' if fa else 'false'} {g_str(T)} {gn} {gi} {g_sform(body)})"
+        gm = "None" if me is None else "(Some " + g_list(
+            me, lambda e: f"(SMB {g_str(e[1])} {g_str(e[2])})" if e[0] == 'b' else f"(SMD {g_str(e[1])})") + ")"
+        return f"(SQ {'true' if fa else 'false'} {g_str(T)} {gn} {gi} {gm} {g_sform(body)})"
     c = {'and': 'SAnd', 'or': 'SOr', 'imp': 'SImp', 'iff': 'SIff', 'xor': 'SXor'}[k]
     return f"({c} {g_sform(f[1])} {g_sform(f[2])})"
 
@@ -523,7 +785,7 @@ def dec_atom(e):
         return s.as_long()
     if z3.is_eq(e) and len(ch) == 2:
         l, r = ch
-        if isvar(l) and z3.is_string_value(r):
+        if isvar(l) and z3.is_string_value(r) and r.as_string() in LITS:
             return neg, 1 + LITS.index(r.as_string()), [str(l)]
         if isvar(l) and isvar(r):
             return neg, 50, [str(l), str(r)]
@@ -531,6 +793,10 @@ def dec_atom(e):
             return neg, 61 + intval(r), [str(l.children()[0])]
     if e.decl().kind() == z3.Z3_OP_GE and ch[0].decl().kind() == z3.Z3_OP_SEQ_LENGTH and isvar(ch[0].children()[0]):
         return neg, 70 + intval(ch[1]), [str(ch[0].children()[0])]
+    names = []
+    c = canon_z3(e, names)
+    if not neg and c in CHAIN_ID:
+        return False, 1000 + CHAIN_ID[c], names
     raise Undecodable(str(e))
 
 
@@ -539,6 +805,13 @@ def g_cform(f):
         neg, aid, names = dec_atom(f.formula)
         byname = {v.name: v for v in f.free_variables()}
         return f"(FSmt (MkAtom {'true' if neg else 'false'} {aid}%N {g_list([byname[n] for n in names], g_var)}))"
+    if isinstance(f, SemanticPredicateFormula):
+        if f.predicate.name != "count" or not isinstance(f.args[1], str) or f.args[1] not in NEEDLES:
+            raise Undecodable(str(f))
+        return f"(FSemPred [{100 + NEEDLES.index(f.args[1])}%N] {g_list([f.args[0], f.args[2]], lambda a: '(PVar ' + g_var(a) + ')')})"
+    if isinstance(f, (ForallIntFormula, ExistsIntFormula)):
+        c = "FForallInt" if isinstance(f, ForallIntFormula) else "FExistsInt"
+        return f"({c} {g_var(f.bound_variable)} {g_cform(f.inner_formula)})"
     if isinstance(f, StructuralPredicateFormula):
         return f"(FSPred [{PREDS.index(f.predicate.name)}%N] {g_list(f.args, lambda a: '(PVar ' + g_var(a) + ')')})"
     if isinstance(f, NegatedFormula):
@@ -596,8 +869,10 @@ def xp_terms(f, env, pol, acc):
                 acc.append((t, b[0] if b else r, b))
     elif k == 'not':
         xp_terms(f[1], env, -pol, acc)
+    elif k == 'int':
+        xp_terms(f[3], env, pol, acc)
     elif k == 'q':
-        _, fa, T, nm, inn, body = f
+        _, fa, T, nm, inn, body, me = f
         xp_terms(body, dict(env, **{(nm or T): (T, fa, pol)}), pol, acc)
     elif k == 'imp':
         xp_terms(f[1], env, -pol, acc); xp_terms(f[2], env, pol, acc)
@@ -657,6 +932,8 @@ def fresh_bases(f, acc, env=None, ctr=None):
                     acc.append(('xpi' + repr(t), t[1][-1][0]))
     elif k == 'not':
         fresh_bases(f[1], acc, env, ctr)
+    elif k == 'int':
+        fresh_bases(f[3], acc, env, ctr)
     elif k == 'q':
         if f[4] and f[4][0] == 'type' and f[4][1] != "<start>":
             acc.append((nt_kind(f[4][1]), f[4][1]))
@@ -696,6 +973,8 @@ def k_root_also_free(surface):
                     roots.add(t[1][0][0])
         elif k == 'not':
             go(f[1], env)
+        elif k == 'int':
+            go(f[3], env)
         elif k == 'q':
             if f[4] and f[4][0] == 'type' and f[4][1] not in env:
                 alone.add(f[4][1])
@@ -749,7 +1028,8 @@ def run(run):
     ntrees = 4 if thorough else 3
     hist = {"parse_ok": 0, "parse_raise": 0, "doc_undefined": 0, "eval_pairs": 0, "eval_agree": 0,
             "known_pushin_empty": 0, "known_dotdot_polarity": 0, "known_fresh_clash": 0, "known_root_also_free": 0, "known_xpath_dup": 0, "nonconstant_formulas": 0, "uses_xpath": 0, "uses_dotdot": 0,
-            "uses_free_nt": 0, "uses_derived": 0, "undecodable": 0}
+            "uses_free_nt": 0, "uses_derived": 0, "undecodable": 0, "uses_user_mexpr": 0,
+            "uses_mexpr_var_and_free_nt_same_type": 0, "uses_numeric_quantifier": 0, "uses_infix_chain": 0}
     cases, meta = [], []          # tie (i)
     eval_viol = []                # tie (ii)
     per_g = {}
@@ -766,6 +1046,10 @@ def run(run):
         hist["uses_dotdot"] += bool(dotdot_targets(f, []))
         hist["uses_free_nt"] += '"free"' in txt
         hist["uses_derived"] += any(('"%s"' % k) in txt for k in ("imp", "iff", "xor"))
+        hist["uses_user_mexpr"] += '["b", ' in txt or '["d", ' in txt
+        hist["uses_mexpr_var_and_free_nt_same_type"] += mexpr_capture_case(f)
+        hist["uses_numeric_quantifier"] += '"int"' in txt
+        hist["uses_infix_chain"] += any(a >= 1000 for a in atom_ids(f, []))
         r = impl_parse(sugar, g)
         if r[0] == "ok":
             hist["parse_ok"] += 1
@@ -773,15 +1057,19 @@ def run(run):
                 lit = f"(Ok {g_cform(r[1])})"
             except Undecodable as e:
                 hist["undecodable"] += 1
-                run.violation({"kind": "atom of elaborated formula not in the modelled shapes (z3.simplify changed it?)",
-                               "sugar": sugar, "atom": str(e), "obligation": "correspondence Sugar.v <-> language.py"},
-                              found_input=False)
-                continue
+                lit = None
+                if hist["undecodable"] <= 2:
+                    run.violation({"kind": "atom of the elaborated formula is not the z3 term of the hand-expanded core "
+                                           "(infix chain nested differently, or z3.simplify changed a modelled atom)",
+                                   "sugar": sugar, "atom": str(e),
+                                   "obligation": "correspondence Sugar.v <-> language.py (SMT text of atoms)"},
+                                  found_input=False)
         else:
             hist["parse_raise"] += 1
             lit = f"(Raise {r[1]})"
-        cases.append((gi, f"({g_sform(f)}, {lit})"))
-        meta.append((gi, f, sugar, r))
+        if lit is not None:
+            cases.append((gi, f"({g_sform(f)}, {lit})"))
+            meta.append((gi, f, sugar, r))
         if n < 3:
             run.sample({"grammar": gi, "sugar": sugar,
                         "impl": unparse_isla(r[1]).replace("\n", " ") if r[0] == "ok" else list(r)})
@@ -869,6 +1157,15 @@ def run(run):
                 hist["known_fresh_clash"] += 1
                 run.known(known["K_fresh_clash"]["what"])
                 continue
+            if k_fresh_clash(f) and "K_fresh_clash" in known and len(disagreements) < 4:
+                m0 = lib.coq_eval("c08d", "Str Outcome Tree Grammar Formula Sugar",
+                                  f"elab ({g_grammar(canonical(GRAMMARS[gi]))}) {g_sform(f)}")
+                if "Raise NotImpl" in m0:
+                    # the clash attaches an XPath match expression to a quantifier that already has a user-written
+                    # one: ISLa merges (or fails to), the model does not model merging
+                    hist["known_fresh_clash"] += 1
+                    run.known(known["K_fresh_clash"]["what"])
+                    continue
             model = lib.coq_eval("c08d", "Str Outcome Tree Grammar Formula Sugar", f"elab ({g_grammar(canonical(GRAMMARS[gi]))}) {g_sform(f)}")
             disagreements.append({"grammar": gi, "sugar": sugar, "surface": f,
                                   "impl": unparse_isla(r[1]).replace("\n", " ") if r[0] == "ok" else list(r),
